@@ -17,6 +17,7 @@ broken down in several modules if needed.
 """
 
 from math import sqrt
+import copy
 from collections import OrderedDict
 
 import numpy as np
@@ -59,7 +60,7 @@ class FermionOperator(of.FermionOperator):
             return super(FermionOperator, self).__imul__(other)
 
     def __mul__(self, other):
-        return self.__imul__(other)
+        return copy.deepcopy(self).__imul__(other)
 
     def __iadd__(self, other):
         if isinstance(other, FermionOperator):
@@ -85,19 +86,19 @@ class FermionOperator(of.FermionOperator):
             raise RuntimeError(f"You cannot add FermionOperator and {other.__class__}.")
 
     def __add__(self, other):
-        return self.__iadd__(other)
+        return copy.deepcopy(self).__iadd__(other)
 
     def __radd__(self, other):
-        return self.__iadd__(other)
+        return copy.deepcopy(self).__iadd__(other)
 
     def __isub__(self, other):
-        return self.__iadd__(-1. * other)
+        return self.__iadd__(-1. * copy.deepcopy(other))
 
     def __sub__(self, other):
-        return self.__isub__(other)
+        return copy.deepcopy(self).__isub__(other)
 
     def __rsub__(self, other):
-        return -1 * self.__isub__(other)
+        return -1 * copy.deepcopy(self).__isub__(other)
 
     def __eq__(self, other):
         # Additional checks for == operator.
